@@ -46,6 +46,7 @@ def make_cfg(rs, tier):
     cfg["oracles"] = ["backend", "result", "children"]
     cfg["p_synced_operand"] = rs.choice([0.0, 0.1, 0.2])
     cfg["p_handle_store"] = rs.choice([0.0, 0.05, 0.1])
+    cfg["p_fault"] = rs.choice([0.0, 0.0, 0.25])     # fault-free and fault-injecting configurations run separately
     return cfg
 
 
@@ -53,7 +54,16 @@ setup = _unbuf.setup
 
 
 def gen_step(w, rg):
-    return _unbuf.gen_step(w, rg)
+    st = _unbuf.gen_step(w, rg)
+    cfg = w.cfg
+    if (cfg.get("p_fault") and st and st.get("t") == "op" and "fault" not in st and not st.get("keep") and w.res[0].store == "file"
+            and w.res[0].disk is not None and rg.random() < cfg["p_fault"]):
+        h = w.handles[st["hid"]]
+        if h is not None and not M.is_mutator(h.kind, st["name"]) and not any(isinstance(a, dict) and "$handle" in a for a in st.get("args", [])):
+            # FAULT-INJECTING share: an I/O error (not ENOENT) at a seeded seam call of a READ, typically right after an
+            # outside rewrite: the read may raise, it must never silently return the cached (stale) content
+            st["fault"] = {"at": rg.randrange(0, 4), "exc": ["OSError", rg.choice(["EACCES", "EIO", "EMFILE", "EPERM", "ESTALE"])]}
+    return st
 
 
 def signature(w, cfg, steps):
